@@ -1,1 +1,98 @@
-import Simfile.Spec.Timeline
+/-
+C11 — the timing engine (merged tagged events, state machine, Python's bisect on a key list that is
+not always sorted) refines the declarative timeline.
+Property theorems only; helper lemmas live in Simfile/Lemmas/Engine*.lean.
+The domain hypothesis `Simfile.C11.Dom` is defined in Simfile/Lemmas/EngineBasic.lean:
+non-empty BPMs starting on beat 0 with positive values; within each of bpms / stops / delays / warps
+the beats are strictly increasing, non-negative and tick-aligned; stop and delay lengths positive;
+rounded warp lengths positive. Any offset, any coincidence of events of different kinds.
+-/
+import Simfile.Lemmas.EngineMain
+import Simfile.Props.C14
+namespace Simfile.C11
+open Simfile
+
+/-- the generated tag order the proofs rely on -/
+theorem tag_order : Tag.val .warp = 0 ∧ Tag.val .warpEnd = 1 ∧ Tag.val .bpm = 2 ∧ Tag.val .delay = 3 ∧
+    Tag.val .delayEnd = 4 ∧ Tag.val .stop = 5 ∧ Tag.val .stopEnd = 6 := by decide
+
+/-- 1. the engine's `time_at` is the declarative time, for every beat (negative and off-grid beats
+included) and every tag -/
+theorem time_refines_spec (td : TimingData) (h : Dom td) (b : Rat) (g : Tag) :
+    timeAt td b g = Spec.timeSpec td b g :=
+  timeAt_eq_spec h b g
+
+/-- 2. `time_at` is monotone in the key (beat, tag) -/
+theorem monotone (td : TimingData) (h : Dom td) {b₁ b₂ : Rat} {g₁ g₂ : Tag}
+    (hk : Spec.keyLE (b₁, g₁) (b₂, g₂) = true) : timeAt td b₁ g₁ ≤ timeAt td b₂ g₂ := by
+  rw [time_refines_spec td h, time_refines_spec td h]
+  exact timeSpec_mono td h ((keyLE_iff _ _ _ _).1 hk)
+
+/-- 3. a larger offset moves every answer earlier by the same amount (no domain hypothesis) -/
+theorem offset_shift (td : TimingData) (d b : Rat) (g : Tag) :
+    timeAt { td with offset := td.offset + d } b g = timeAt td b g - d :=
+  timeAt_shift td d b g
+
+/-- 4. `bpm_at` is the value of the last BPM change at or before the beat -/
+theorem bpm_at (td : TimingData) (h : Dom td) (b : Rat) :
+    bpmAt td b = if b < 0 then (td.bpms.headD (0, 0)).2 else Spec.bpmOn td b :=
+  bpmAt_eq_spec h b
+
+/-- 5. a redundant BPM change — `withBpm td x` is `td` with the row `(x, Spec.bpmOn td x)` inserted into
+`td.bpms` at its sorted position (`insertBpm`) — changes no answer -/
+theorem redundant_bpm (td : TimingData) (h : Dom td) (x : Rat) (hx : onGrid x) (hpos : 0 < x)
+    (hnew : ∀ e ∈ td.bpms, e.1 ≠ x) :
+    (∀ b g, timeAt (withBpm td x) b g = timeAt td b g) ∧ (∀ b, bpmAt (withBpm td x) b = bpmAt td b) := by
+  have h' := dom_withBpm td h x hx hpos hnew
+  constructor
+  · intro b g
+    rw [time_refines_spec _ h', time_refines_spec _ h, timeSpec_withBpm td h x hpos hnew]
+  · intro b
+    rw [bpm_at _ h', bpm_at _ h, head_withBpm td h x hpos, bpmOn_withBpm td h x hpos hnew]
+
+/-- what `withBpm` is -/
+theorem withBpm_def (td : TimingData) (x : Rat) :
+    withBpm td x = { td with bpms := insertBpm x (Spec.bpmOn td x) td.bpms } := rfl
+
+/-! ### non-vacuity: a stop on a delay inside a warp that starts on beat 0, with a BPM change inside -/
+
+example : Dom ({
+    bpms := [(0, 120), (1, 240)]
+    stops := [(1/2, 1/4)]
+    delays := [(1/2, 1/8)]
+    warps := [(0, 2)]
+    offset := 1/100 } : TimingData) := by
+  have g0 : onGrid 0 := ⟨0, by norm_num⟩
+  have g1 : onGrid 1 := ⟨48, by rw [C14.ticks_is_48]; norm_num⟩
+  have g2 : onGrid (1/2) := ⟨24, by rw [C14.ticks_is_48]; norm_num⟩
+  have hr : roundToTick 2 = 2 := by
+    have := C14.round_idem 96
+    norm_num at this
+    exact this
+  constructor
+  · simp
+  · simp
+  · intro e he; simp at he; rcases he with rfl | rfl <;> norm_num
+  · simp
+  · intro e he; simp at he; rcases he with rfl | rfl
+    · exact ⟨le_refl _, g0⟩
+    · exact ⟨by norm_num, g1⟩
+  · intro e he; simp at he; subst he; norm_num
+  · simp
+  · intro e he; simp at he; subst he; exact ⟨by norm_num, by simpa using g2⟩
+  · intro e he; simp at he; subst he; norm_num
+  · simp
+  · intro e he; simp at he; subst he; exact ⟨by norm_num, by simpa using g2⟩
+  · intro e he; simp at he; subst he; rw [hr]; norm_num
+  · simp
+  · intro e he; simp at he; subst he; exact ⟨le_refl _, g0⟩
+
+/-- the extra hypotheses of `redundant_bpm` are satisfiable on that input: `x = 1/2` -/
+example : onGrid (1/2) ∧ (0 : Rat) < 1/2 ∧ ∀ e ∈ [((0 : Rat), (120 : Rat)), (1, 240)], e.1 ≠ 1/2 := by
+  refine ⟨⟨24, by rw [C14.ticks_is_48]; norm_num⟩, by norm_num, ?_⟩
+  intro e he; simp at he; rcases he with rfl | rfl <;> norm_num
+
+/-- the hypothesis of `monotone` is satisfiable (and strict in the tag on equal beats) -/
+example : Spec.keyLE (1/2, .delayEnd) (1/2, .stop) = true := by simp [Spec.keyLE]
+
+end Simfile.C11
